@@ -329,6 +329,8 @@ def span_check(events, spec=None):
         if nd["open"]:
             bad.append(("C12:node-never-closed", f"node span of {nd['graph']}/{nd['name']} never closed"))
     st["root_status"] = runs[root]["status"] if root in runs and "status" in runs[root] else None
+    st["open_nodes"] = sorted((nd["graph"], nd["name"]) for nd in nodes.values() if nd["open"])
+    st["open_runs"] = sorted(r["graph"] for r in runs.values() if r["open"])
     return bad, st
 
 
